@@ -3018,6 +3018,12 @@ def _parse_simple_lines(
             rows_value = _resolve_numeric_arg(rows_arg, 2)
             backlight_value = _resolve_optional_numeric_arg(backlight_arg)
             if interface == "i2c":
+                if any(
+                    _extract_call_argument(args_src, keyword=pin_name) is not None
+                    for pin_name in ("rs", "en", "d4", "d5", "d6", "d7", "rw")
+                ) or _extract_call_argument(args_src, position=0) is not None:
+                    # same rule as the host-side LCD class
+                    raise ValueError("parallel pins are not supported in I2C mode")
                 i2c_value = _resolve_numeric_arg(i2c_arg, 0)
                 lcd_names.add(name)
                 vars[name] = _ExprStr(name)
